@@ -376,52 +376,52 @@ fn contract_insert_n3() {
 }
 
 #[kani::proof]
-#[kani::unwind(6)]
+#[kani::unwind(34)]
 fn contract_remove_n0() {
     check_remove::<0>();
 }
 
 #[kani::proof]
-#[kani::unwind(6)]
+#[kani::unwind(34)]
 fn contract_remove_n1() {
     check_remove::<1>();
 }
 
 #[kani::proof]
-#[kani::unwind(6)]
+#[kani::unwind(34)]
 fn contract_remove_n2() {
     check_remove::<2>();
 }
 
 #[kani::proof]
-#[kani::unwind(6)]
+#[kani::unwind(34)]
 fn contract_remove_n3() {
     check_remove::<3>();
 }
 
 #[kani::proof]
-#[kani::unwind(6)]
+#[kani::unwind(34)]
 #[kani::stub(std::time::Instant::now, clock::now)]
 fn contract_update_n0() {
     check_update::<0>();
 }
 
 #[kani::proof]
-#[kani::unwind(6)]
+#[kani::unwind(34)]
 #[kani::stub(std::time::Instant::now, clock::now)]
 fn contract_update_n1() {
     check_update::<1>();
 }
 
 #[kani::proof]
-#[kani::unwind(6)]
+#[kani::unwind(34)]
 #[kani::stub(std::time::Instant::now, clock::now)]
 fn contract_update_n2() {
     check_update::<2>();
 }
 
 #[kani::proof]
-#[kani::unwind(6)]
+#[kani::unwind(34)]
 #[kani::stub(std::time::Instant::now, clock::now)]
 fn contract_update_n3() {
     check_update::<3>();
@@ -456,32 +456,32 @@ fn contract_apply_pending_n3() {
 }
 
 #[kani::proof]
-#[kani::unwind(6)]
+#[kani::unwind(34)]
 fn contract_status_position_n0() {
     check_status_position::<0>();
 }
 
 #[kani::proof]
-#[kani::unwind(6)]
+#[kani::unwind(34)]
 fn contract_status_position_n1() {
     check_status_position::<1>();
 }
 
 #[kani::proof]
-#[kani::unwind(6)]
+#[kani::unwind(34)]
 fn contract_status_position_n2() {
     check_status_position::<2>();
 }
 
 #[kani::proof]
-#[kani::unwind(6)]
+#[kani::unwind(34)]
 fn contract_status_position_n3() {
     check_status_position::<3>();
 }
 
 /// Vacuity canary: must FAIL.
 #[kani::proof]
-#[kani::unwind(6)]
+#[kani::unwind(34)]
 fn canary_remove_never_finds() {
     let mut b = any_bucket::<2>();
     let x: u8 = kani::any();
